@@ -27,6 +27,12 @@ VERIF_FAIL = (
     'evaluates to false',           # assert(..) by (compute_only) refuted by evaluation
     'expression simplifies to',
     'index in bounds',
+    'unable to prove post-condition of closure',
+    'unable to prove this pattern will successfully match',
+    'requires not satisfied',
+    'cannot show that this value is variant',
+    'bitvector assertion not satisfied',
+    'may fail to meet its declared type invariant',
     'assertion failed'
 )
 TOOL_LIMIT = ('rlimit', 'Resource limit', 'timed out', 'timeout', 'could not determine')
